@@ -527,6 +527,18 @@ def opreduceRowOk (r : OptRow) : Bool :=
 
 theorem opreduce_rows_ok : optimizers.all opreduceRowOk = true := by decide +kernel
 
+/-- the same for the comparison rows -/
+def compreduceRowOk (r : OptRow) : Bool :=
+  match r.handler with
+  | .compreduce op opim _ => templateOps.contains op && immOk op opim
+  | _ => true
+
+theorem compreduce_rows_ok : optimizers.all compreduceRowOk = true := by decide +kernel
+
+/-- the row named SUBTRACT is an `opreduce` row (so no comparison row is excluded by the unary-minus exception) -/
+theorem subtract_is_opreduce : optimizers.all (fun r => r.tagName != "SUBTRACT" || (match r.handler with | .opreduce _ _ _ _ => true | _ => false)) = true := by
+  decide +kernel
+
 /-- ★ `(op a0 y r2 r3 ..)` for a variadic arithmetic / bitwise / shift row (`-` excepted as in `inline_eq_generic_partial`): the INSTRUCTIONS
     `opreduce` emits (`Spec.emitOpreduceCode`: registers and immediates as operands, accumulation in the target register), placed anywhere and
     run on the caller's slots, compute `m` into the target register - and the generic function's REAL bytecode run on the same argument
@@ -586,6 +598,80 @@ theorem variadic_emitted_eq_generic (T : TupleLaws P) (p : OptRow × CoreFun) (h
       exact hi.symm
     subst this
     exact ⟨gcode, fuel, hd, hf⟩
+
+/-- ★ `(cmp a r1 .. r(n-2) last)` for a variadic comparison row (< > <= >= = not=): the INSTRUCTIONS `compreduce` emits
+    (`Spec.emitCompreduceCode`: a comparison into the target register per neighbouring pair, a conditional jump to the end after each but
+    the last - `JOP_JUMP_IF_NOT`, or `JOP_JUMP_IF` for the inverted row), placed anywhere and run on the caller's slots, compute `m` into
+    the target register; the generic comparator's REAL bytecode run on the same argument values computes the same `m`: same boolean or
+    error, same world, same order of comparisons, nothing evaluated after the deciding comparison.  Registers: the first operand may
+    live in the target, the others must not (`reduce_target(opts, args, 1)`); the operands between first and last are registers. -/
+theorem comparison_emitted_eq_generic (T : TupleLaws P) (p : OptRow × CoreFun) (hp : p ∈ variadicPairs)
+    (op : Op) (opim : Option Op) (invert : Bool) (hh : p.1.handler = .compreduce op opim invert)
+    (code : List Instr) (s : List P.V) (pc t a : Nat) (m0 : Nat) (mids : List Nat) (last : RArg)
+    (ht : t < 256) (ha : a < 256) (hm : ∀ r ∈ m0 :: mids, r < 256 ∧ r ≠ t) (hl : last.ok opim ∧ last.avoids t) (hsz : mids.length < 15999)
+    (hlen : t < s.length) (hat : HasAt code pc (emitCompreduceCode op opim invert t a (m0 :: mids) last)) :
+    ∃ m, evalInline P p.1 ((⟨s.getD a P.nil, none⟩ : Arg P) :: argOf P s (.reg m0) :: (mids.map (fun r => argOf P s (.reg r)) ++ [argOf P s last])) = some m ∧
+      Computes P code s pc (2 * (mids.length + 1) + 1) m (fun v => s.set t v) (pc + (2 * (mids.length + 1) + 1)) ∧
+      ∀ w, ∃ gcode fuel, p.2.words.map decode = gcode.map some ∧
+        exec P gcode fuel (frame0 P T (((⟨s.getD a P.nil, none⟩ : Arg P) :: argOf P s (.reg m0) ::
+          (mids.map (fun r => argOf P s (.reg r)) ++ [argOf P s last])).map (·.v))) w = some (m w) := by
+  have hmem : p.1 ∈ optimizers := by
+    simp only [variadicPairs, List.mem_filterMap] at hp
+    obtain ⟨r, hr, hr2⟩ := hp
+    simp only [Option.map_eq_some_iff] at hr2
+    obtain ⟨t', _, rfl⟩ := hr2
+    exact (List.mem_filter.mp hr).1
+  have hrow := List.all_eq_true.mp compreduce_rows_ok p.1 hmem
+  simp only [compreduceRowOk, hh, Bool.and_eq_true, List.contains_iff_mem] at hrow
+  have hop : IsBinOp P op := isBinOp_of_mem P op (by simpa using hrow.1)
+  have himm : ∀ oi, opim = some oi → IsImmOp P oi := by
+    intro oi ho
+    subst ho
+    have : immBase oi = some op := by simpa [immOk] using hrow.2
+    exact isImmOp_of_base P oi op this
+  have hne : p.1.tagName ≠ "SUBTRACT" := by
+    intro hsub
+    have := List.all_eq_true.mp subtract_is_opreduce p.1 hmem
+    simp [hsub, hh] at this
+  have hwf : ∀ x ∈ ((⟨s.getD a P.nil, none⟩ : Arg P) :: argOf P s (.reg m0) :: (mids.map (fun r => argOf P s (.reg r)) ++ [argOf P s last])),
+      x.wf P := by
+    intro x hx
+    simp only [List.mem_cons, List.mem_append, List.mem_map, List.mem_nil_iff, or_false] at hx
+    rcases hx with rfl | rfl | ⟨r, _, rfl⟩ | rfl
+    · intro i hi; cases hi
+    · intro i hi; simp [argOf] at hi
+    · intro i hi; simp [argOf] at hi
+    · intro i hi
+      cases last with
+      | reg r => simp [argOf] at hi
+      | imm j =>
+        simp only [argOf, Option.some.injEq] at hi
+        subst hi
+        obtain ⟨⟨_, h1, h2⟩, _⟩ := hl
+        exact ⟨rfl, by simp only [immMin]; omega, by simp only [immMax]; omega⟩
+  refine ⟨evalCompreduce P op opim invert ((⟨s.getD a P.nil, none⟩ : Arg P) :: argOf P s (.reg m0) ::
+    (mids.map (fun r => argOf P s (.reg r)) ++ [argOf P s last])), by simp only [evalInline, hh], ?_, ?_⟩
+  · have := cmp_chain_computes P op opim invert hop himm code t ht (m0 :: mids) last hm hl (by simp only [List.length_cons]; omega)
+      s hlen pc a ha hat
+    simp only [List.length_cons] at this
+    rw [cmpSem_eq_goInline] at this
+    exact this
+  · intro w
+    obtain ⟨m', gcode, fuel, hi, hd, hf⟩ := inline_eq_generic_bytecode_partial P T p hp hne _ hwf w
+    have : m' = evalCompreduce P op opim invert ((⟨s.getD a P.nil, none⟩ : Arg P) :: argOf P s (.reg m0) ::
+        (mids.map (fun r => argOf P s (.reg r)) ++ [argOf P s last])) := by
+      simp only [evalInline, hh, Option.some.injEq] at hi
+      exact hi.symm
+    subst this
+    exact ⟨gcode, fuel, hd, hf⟩
+
+/-- non-vacuity: `(< a0 a1 5)` with the target in register 3 is `lt 3 0 1; jmpno 3 +2; ltim 3 1 5`; on the witness universe (every
+    comparison is false) the chain leaves after the first comparison -/
+example : emitCompreduceCode .lessThan (some .lessThanImmediate) false 3 0 [1] (.imm 5) =
+      [mkABC .lessThan 3 0 1, mkAI .jumpIfNot 3 2, mkABI .lessThanImmediate 3 1 5] ∧
+    exec Witness.WP ([mkABC .lessThan 3 0 1, mkAI .jumpIfNot 3 2, mkABI .lessThanImmediate 3 1 5, mkD .return 3]) 5
+      ⟨[Witness.WV.n 10, .n 0, .n 7, .n 9], 0⟩ [] = some (.ok (.n 0), []) :=
+  ⟨rfl, rfl⟩
 
 /-- non-vacuity: `(+ a0 5 a2)` with the target in register 3 is `addim 3 0 5; add 3 3 2`, and on the witness universe (integers) the chain
     run from `[10, _, 7, _]` leaves 22 in register 3 -/
